@@ -147,9 +147,11 @@ theorem C14_load_indep (b : Bundle) (r : Str → Nat) (hr : rankOk b r = true)
 /-- a two-file package (second file refers to the first) meeting the hypotheses of `C14_perm_files` -/
 def exBundle : Bundle :=
   { pkgs := [ { name := b!"foo.v1", files :=
-      [ .j5s b!"foo/v1/a.j5s" [] [.object (.mk b!"A" [.mk b!"x" false false (.string [] false)] [] none)],
+      [ .j5s b!"foo/v1/a.j5s" [] [.object (.mk b!"A" [.mk b!"x" false false (.string [] false)] [] none)]
+          b!"foo.v1",
         .j5s b!"foo/v1/b.j5s" []
-          [.object (.mk b!"B" [.mk b!"a" false false (.objectRef [] b!"A" false [])] [] none)] ] } ] }
+          [.object (.mk b!"B" [.mk b!"a" false false (.objectRef [] b!"A" false [])] [] none)]
+          b!"foo.v1" ] } ] }
 
 example : (match loadPkg exBundle (exBundle.pkgs.length + 1) [] b!"foo.v1" with
     | .ok l => decide ((l.exports.map (·.1)).Nodup) && decide ((l.files.map (·.name)).Nodup)
@@ -160,7 +162,8 @@ example : (match loadPkg exBundle (exBundle.pkgs.length + 1) [] b!"foo.v1" with
 def exBundle2 : Bundle :=
   { pkgs := exBundle.pkgs ++ [ { name := b!"bar.v1", files :=
       [ .j5s b!"bar/v1/c.j5s" [⟨b!"foo.v1", []⟩]
-          [.object (.mk b!"C" [.mk b!"a" false false (.objectRef b!"foo" b!"A" false [])] [] none)] ] } ] }
+          [.object (.mk b!"C" [.mk b!"a" false false (.objectRef b!"foo" b!"A" false [])] [] none)]
+          b!"bar.v1" ] } ] }
 
 def exRank (n : Str) : Nat := if n = b!"bar.v1" then 1 else 0
 
